@@ -141,6 +141,7 @@ class C14(Prop):
     # translator tie (DESIGN II.7): to_stream / to_future — the channel observers and the poll functions of the receiving
     # side, from the compiler-expanded source; with `future_outcome_*`: what to_future resolves to for EVERY history
     tie_modules = {"RxModel.GenTie.Conversions": [],
+                   "RxModel.GenTie.CompleteStatus": [],     # complete_status: observer, queries, StatusFuture::poll in closed form
                    # transcription pins (DESIGN II.7, weakest tie): the token text of the hand-transcribed files is the one the model was made from
                    "RxModel.GenTie.PinsConvert": [],
     }
